@@ -906,6 +906,19 @@ func checkQueries(t fataler, fc *fontCase, f *sfnt.Font, which string, boxes []b
 					{op: 'L', p: [3][2]float64{{float64(want.llx), float64(want.ury)}}},
 				}}
 				wantPDF, _ = corner.bounds(M1000, false)
+				// the font matrix is an argument of this query: matrices that
+				// turn or shear the box (where the extreme of an output
+				// coordinate comes from the lower-right or upper-left corner)
+				for _, X := range extraBoxMatrices {
+					var gotX rect.Rect
+					if pn := guard.Try(func() { gotX = f.Outlines.GlyphBBoxPDF(X, gid) }); pn != nil {
+						fail("GlyphBBoxPDF(%v, %d): %s", X, i, pn)
+					}
+					wantX, _ := corner.bounds(X.Mul(matrix.Scale(1000, 1000)), false)
+					if !nearRect(gotX, wantX) {
+						fail("Outlines.GlyphBBoxPDF(%v, %d) = %v, the glyph box %v under that matrix x 1000 has the bounds %v", X, i, gotX, want, wantX)
+					}
+				}
 			}
 		} else {
 			wantPDF, _ = g.bounds(M1000, true)
@@ -938,6 +951,16 @@ func checkQueries(t fataler, fc *fontCase, f *sfnt.Font, which string, boxes []b
 	if which == "built" {
 		*labels = append(*labels, lbl(wantFixed, "fixed-pitch"), lbl(!wantFixed && !either, "proportional"))
 	}
+}
+
+// extraBoxMatrices: rotation by 30 degrees, slant to the left, vertical shear
+// with a negative entry, a general matrix with mixed signs, a mirror image.
+var extraBoxMatrices = []matrix.Matrix{
+	{0.000866, 0.0005, -0.0005, 0.000866, 0, 0},
+	{0.001, 0, -0.0003, 0.001, 0, 0},
+	{0.001, -0.0002, 0, 0.001, 0, 0},
+	{0.0008, -0.0006, 0.0006, 0.0008, 0.01, -0.02},
+	{-0.001, 0, 0.0004, 0.001, 0, 0},
 }
 
 // checkWritten walks the file and recomputes the derived fields.
